@@ -401,6 +401,14 @@ def run(facts, tr, rep):
                                     if rv2.get("variant") == "Some":
                                         inner = peel(tr.expand(tr.operand(poll, rv2["ops"][0], (val[3], val[4]))))
                                         assigned = any(derives(tr, inner, V, variants=("Ready", "Err")) for V in IP)
+                # ... or stored with `slot.replace(err)` / `slot.insert(err)`, which always overwrite (`get_or_insert` does not)
+                for c2 in g.calls():
+                    if c2.name in ("replace", "insert") and "option::Option" in (c2.def_ or c2.path or "") and len(c2.args) == 2 and g.node_dominates(c2.bb, i):
+                        rc = tr.expand(tr.operand(poll, c2.args[0], c2.loc))
+                        if any(x[0] == "field" and x[2] in pf for x in tr.walk(rc, limit=20)):
+                            from_last = True
+                            inner = peel(tr.expand(tr.operand(poll, c2.args[1], c2.loc)))
+                            assigned = assigned or any(derives(tr, inner, V, variants=("Ready", "Err")) for V in IP)
                 rep.ob("C16.ERRORS", skey(poll, "MaxAttemptsExceeded#%d" % nerr), from_last and assigned, g.where(i, j),
                        "exhaustion reports the last inner error (stored on this very path)" if from_last and assigned else
                        "exhaustion does not report the last inner error")
